@@ -680,6 +680,10 @@ func (c *Compiler) ExpandModules() (err error) {
 		r := module.GetModule()
 		g.AddVertex(mn)
 		for _, i := range r.ChildrenByType(parse.NodeImport) {
+			if i.Name() == mn {
+				// a cycle of length one, which the sort does not report
+				c.error(i, fmt.Errorf("module %s imports itself", mn))
+			}
 			g.AddEdge(mn, i.Name())
 		}
 	}
@@ -760,6 +764,10 @@ func (c *Compiler) VerifyModuleIncludes(m parse.Node, submodules map[string]pars
 	}
 	for _, s := range submodules {
 		for _, i := range s.ChildrenByType(parse.NodeInclude) {
+			if i.Name() == s.Name() {
+				// a cycle of length one, which the sort does not report
+				c.error(i, fmt.Errorf("submodule %s includes itself", s.Name()))
+			}
 			g.AddEdge(s.Name(), i.Name())
 		}
 	}
